@@ -78,9 +78,12 @@ BODY: List[Tuple[str, str, List[str], List[str], str]] = [
      ["return self.instance_reference()"],
      "Definition g_deref (L : list orec) (w : wrapper) : option obj := if mem_obj (w_obj w) L then Some (w_obj w) else None."),
     (SG, "SymbolGraph.get_instances_of_type", ["self", "type_"],
-     ["yield from (instance.instance for cls in [type_] + recursive_subclasses(type_) for instance in list(self._class_to_wrapped_instances[cls]))"],
+     ["instances = (instance.instance for cls in [type_] + recursive_subclasses(type_) for instance in list(self._class_to_wrapped_instances[cls]))",
+      "yield from filter(lambda instance: instance is not None, instances)"],
+     "Definition g_instances_raw (children : cls -> list cls) (fuel : nat) (L : list orec) (r : reg) (T : cls) : list (option obj) :=\n"
+     "  flat_map (fun c => map (g_deref L) (filter (fun w => w_cls w =? c) (wl r))) (T :: g_rsub children fuel T).\n"
      "Definition g_instances (children : cls -> list cls) (fuel : nat) (L : list orec) (r : reg) (T : cls) : list (option obj) :=\n"
-     "  flat_map (fun c => map (g_deref L) (filter (fun w => w_cls w =? c) (wl r))) (T :: g_rsub children fuel T)."),
+     "  filter (fun x => match x with Some _ => true | None => false end) (g_instances_raw children fuel L r T)."),
     (SG, "SymbolGraph.get_wrapped_instance", ["self", "instance"],
      ["if isinstance(instance, WrappedInstance):\n    return instance", "return self._instance_index.get(id(instance), None)"],
      "Definition g_get_wrapped (r : reg) (x : orec) : option wrapper := get (o_pyid x) (by_id r)."),
@@ -153,7 +156,10 @@ BODY: List[Tuple[str, str, List[str], List[str], str]] = [
      "Fixpoint g_pull_cur (L : list orec) (seen : list (option obj)) (cur : list wrapper) : option (option obj * list wrapper) :=\n"
      "  match cur with\n"
      "  | [] => None\n"
-     "  | w :: t => let v := g_deref L w in if existsb (oeqb v) seen then g_pull_cur L seen t else Some (v, t)\n"
+     "  | w :: t => match g_deref L w with\n"
+     "              | None => g_pull_cur L seen t\n"
+     "              | Some o => if existsb (oeqb (Some o)) seen then g_pull_cur L seen t else Some (Some o, t)\n"
+     "              end\n"
      "  end.\n"
      "Fixpoint g_pull_classes (L : list orec) (r : reg) (seen : list (option obj)) (cs : list cls)\n"
      "  : option (option obj * list wrapper * list cls) :=\n"
